@@ -45,6 +45,9 @@ TRUSTED = [
     "os.rename, os.remove, os.access, os.path.isfile; shadow of durable/volatile bytes)",
 ]
 THEOREMS_DOC = {
+    "C12_save_preempted_and_resumed_is_save": "two-thread model (Model/FsConc.v): save_sensors preempted before call j of statement i and resumed at once = save_sensors, all programs/states/positions (ties pause/resume to the interpreter of the generated programs)",
+    "C12_stop_during_scheduled_save_unlocked_refuted": "REFUTED without mutual exclusion (D23, code before c9a1a32), both formats: scheduled save preempted before flush(), message, stop()'s save completes, scheduled save resumes -> no main file, start-up does not load the state held at stop",
+    "C12_stop_during_scheduled_save_locked": "with the lock (scheduled save completely, message, stop()'s save): stop()'s save ends Done, need_save clear, start-up loads exactly the state held at stop - all formats, state types, prior configurations, write counts",
     "C12_crash_atomic": "forall format, states, valid prior configuration, w>=1, crash point, lost suffix of directory ops, "
                         "loss choice, measured decoder classes: start-up loads exactly old (nothing if no file) or new; disk "
                         "is again a valid configuration; next save+load round-trips",
